@@ -80,7 +80,14 @@ fn check_u32(c: &SeqCase, obs: &mut Obs) -> Verdict {
         Err(p) => return Verdict::Fail(format!("{}: {} (after {} comparisons, N={}, M={})", alg_name(alg), p, cmp, n, m)),
     };
     let (d, i, _) = events_cost(&ev);
-    let dd = (d + i) as u64;
+    let mut dd = (d + i) as u64;
+    // Myers: D is the size of the SHORTEST script; where an independent reference is affordable it
+    // is used instead of the size Myers reports (a slower AND non-minimal Myers must not loosen its
+    // own bound)
+    if alg == 0 && n * m <= 1_000_000 {
+        let l = lcs_len(&c.old, &c.new) as u64;
+        dd = dd.min(n + m - 2 * l);
+    }
     let cc = if alg == 0 { C_MYERS } else { C_PATIENCE };
     let bound = cc * (n + m + 1) * (dd + 1);
     let ratio = cmp as f64 / ((n + m + 1) * (dd + 1)) as f64;
@@ -268,7 +275,7 @@ impl Prop for C19 {
     type Case = SeqCase;
     const ID: &'static str = "C19";
     fn rule() -> String {
-        "cases = (Myers|Patience, old, new) over an element type whose PartialEq counts calls; a stage of fixed inputs of 20 000-150 000 near-identical items; 1 random case in 10 uses 50-byte record items sharing a 40-byte head (so hashing/equality of long keys is exercised); families: near-identical (0-6 edits incl. block moves) up to 400 (quick) / 3000 (thorough) items over alphabets {2,4,26,10^3,10^5}, periodic with shift, reversed, truncated, unrelated, the shared small mixture, sequences in which every value occurs 1-3 times a few positions apart (interleaved copies), a block followed by the same values rearranged (second occurrences far away), and 1200-3200 (thorough: 9000-24000) items with 20-200 (400) scattered single-item edits on periodic or random content. Oracle: comparisons <= c*(N+M+1)*(D+1) with D = size of the reported script, c = 4 (Myers) / 6 (Patience); the counter aborts the run at 64x the largest possible bound so a quadratic or non-terminating change ends as a measured violation. The maximum measured ratio is reported under metrics_max. Non-trivial = N+M >= 200 and D <= (N+M)/20 (the near-linear claim); distinct = distinct serialized case.".into()
+        "cases = (Myers|Patience, old, new) over an element type whose PartialEq counts calls; a stage of fixed inputs of 20 000-150 000 near-identical items; 1 random case in 10 uses 50-byte record items sharing a 40-byte head (so hashing/equality of long keys is exercised); families: near-identical (0-6 edits incl. block moves) up to 400 (quick) / 3000 (thorough) items over alphabets {2,4,26,10^3,10^5}, periodic with shift, reversed, truncated, unrelated, the shared small mixture, sequences in which every value occurs 1-3 times a few positions apart (interleaved copies), a block followed by the same values rearranged (second occurrences far away), and 1200-3200 (thorough: 9000-24000) items with 20-200 (400) scattered single-item edits on periodic or random content. Oracle: comparisons <= c*(N+M+1)*(D+1) with D = size of the reported script (Myers: the smaller of that and the shortest script by an independent LCS reference when N*M <= 10^6), c = 4 (Myers) / 6 (Patience); the counter aborts the run at 64x the largest possible bound so a quadratic or non-terminating change ends as a measured violation. The maximum measured ratio is reported under metrics_max. Non-trivial = N+M >= 200 and D <= (N+M)/20 (the near-linear claim); distinct = distinct serialized case.".into()
     }
     fn assumptions() -> Vec<String> {
         vec!["the constants are calibrated (measured maxima about 0.7 Myers / 1.6 Patience), not derived: the check decides 'within c x of the documented O((N+M)D)'".into()]
